@@ -41,7 +41,7 @@ def edit(rng, svcs, rules):
     kinds = []
     for _ in range(rng.choice([1, 1, 1, 2, 3])):
         k = rng.choice(["svc-add", "svc-remove", "svc-change", "rule-add", "rule-remove", "rule-class", "crit-add", "crit-remove", "crit-change", "rule-rename",
-                        "svc-change", "crit-change", "rule-class", "svc-recase", "rule-recase"])
+                        "svc-change", "crit-change", "rule-class", "svc-recase", "rule-recase", "rule-strip"])
         if k == "svc-add":
             free = [n for n in SVC_NAMES if n not in [x[0] for x in svcs]]
             if not free:
@@ -71,6 +71,15 @@ def edit(rng, svcs, rules):
                 continue
             r = rng.choice(rules)
             r["class"] = rng.choice(["moved", "trusted2", "c" + str(rng.randrange(100))])
+        elif k == "rule-strip":
+            # the rule stays but loses every setting at once: it now matches everybody and gives its own name as the class
+            cands = [r for r in rules if "_plain" not in r and len(r) > 1]
+            if not cands:
+                continue
+            r = rng.choice(cands)
+            for key in list(r):
+                if key != "name":
+                    del r[key]
         elif k == "crit-add":
             if not rules:
                 continue
@@ -119,7 +128,7 @@ def edit(rng, svcs, rules):
 
 DIRECTED = ["crit-add-then-change", "rule-add-then-change", "svc-add-then-change", "svc-remove-then-add", "svc-remove-all-then-add", "svc-change-and-back", "svc-readd-same", "rule-rename-and-back", "rule-remove-then-add",
             "crit-remove-then-add", "svc-swap-names", "svc-recase-xreply", "rule-recase-and-back", "same-size-edit", "same-address-across-reload", "value-recase-after-noop", "section-drop-then-restore",
-            "xquery-section-drop-then-restore"]
+            "xquery-section-drop-then-restore", "rule-strip-after-noop"]
 
 SAME_SIZE = {"class": [("aaaa", "bbbb"), ("users", "opers")], "address": [("10.1.2.0/24", "10.1.3.0/24"), ("10.1.*", "10.2.*"), ("2001:db8::/32", "2001:db9::/32")],
              "account": [("alice", "bobby"), ("al*", "bo*")], "hostname": [("*.net", "*.org"), ("host?.net", "host?.org")], "username": [("joe", "jae"), ("~*", "j*")]}
@@ -168,6 +177,17 @@ def directed_chain(rng, kind, svcs, rules):
         base = [{"name": "00first", "class": "Users", key: vals[0]}] + [r for r in copy.deepcopy(r0) if r["name"].lower() != "00first"]
         r1 = copy.deepcopy(base)
         r1[0][key] = vals[1]
+        sv_ = [(a, pa), (b, pb)]
+        return [(sv_, base, []), (sv_, copy.deepcopy(base), [kind]), (sv_, r1, [kind])]
+    if kind == "rule-strip-after-noop":
+        # an unchanged reload first, then one rule (the first or the last one looked at) loses all its settings in one go
+        nm = rng.choice(["00first", "zzlast"])
+        base = [r for r in copy.deepcopy(r0) if r["name"].lower() != nm] + [{"name": nm, "class": "tenners", "address": "10.0.0.0/8"}]
+        if nm == "zzlast":
+            for r in base[:-1]:
+                r.setdefault("address", "11.0.0.0/8")     # nobody before it is a catch-all
+        r1 = copy.deepcopy(base)
+        r1[-1] = {"name": nm}
         sv_ = [(a, pa), (b, pb)]
         return [(sv_, base, []), (sv_, copy.deepcopy(base), [kind]), (sv_, r1, [kind])]
     if kind in ("section-drop-then-restore", "xquery-section-drop-then-restore"):
